@@ -34,6 +34,10 @@ impl<'a> WireFormat<'a> for RouteThrough<'a> {
     where
         Self: Sized,
     {
+        if data.len() < *position + 2 {
+            return Err(crate::SimpleDnsError::InsufficientData);
+        }
+
         let preference = u16::from_be_bytes(data[*position..*position + 2].try_into()?);
         *position += 2;
         let intermediate_host = Name::parse(data, position)?;
